@@ -56,7 +56,7 @@ class Engine:
         self.prove_timeout = int(opts.get("prove_timeout_ms", 10000))
         self.seed = int(opts.get("seed", 0))
         self.no_witness = bool(opts.get("no_witness"))
-        self.rlimit_per_ms = int(opts.get("rlimit_per_ms", 4000))
+        self.rlimit_per_ms = int(opts.get("rlimit_per_ms", int(os.environ.get("QVERIF_RLIMIT_PER_MS", "4000"))))
         self.witness_budget_s = float(opts.get("witness_budget_s", 45.0))
         self.cvc5_budget = int(opts.get("cvc5_recheck", 0))
         if self.seed:
@@ -89,7 +89,7 @@ class Engine:
     # ---- solver plumbing
     def _check(self, extra, timeout):
         t = time.time()
-        self.solver.set("timeout", timeout)
+        self.solver.set("timeout", int(timeout * slack()))
         # resource limit as well: unlike the wall-clock timeout it is honoured inside nlsat
         self.solver.set("rlimit", int(timeout) * self.rlimit_per_ms)
         if extra:
@@ -400,7 +400,7 @@ class Engine:
                     s = z3.Solver()
                     s.set("random_seed", seed)
                     s.set("smt.arith.random_initial_value", True)
-                s.set("timeout", self.prove_timeout)
+                s.set("timeout", int(self.prove_timeout * slack()))
                 try:
                     s.set("rlimit", int(self.prove_timeout) * self.rlimit_per_ms)
                 except z3.Z3Exception:
@@ -443,7 +443,7 @@ class Engine:
             t = time.time()
             try:
                 s = z3.Solver()
-                s.set("timeout", max(2000, self.prove_timeout // 3))
+                s.set("timeout", int(max(2000, self.prove_timeout // 3) * slack()))
                 s.set("rlimit", max(2000, self.prove_timeout // 3) * self.rlimit_per_ms)
                 s.add(*asserts)
                 s.add(goal)
@@ -527,9 +527,9 @@ class Engine:
         self.solver.push()
         try:
             self.solver.add(goal)
-            self.solver.set("timeout", self.prove_timeout)
+            self.solver.set("timeout", int(self.prove_timeout * slack()))
             self.solver.set("rlimit", int(self.prove_timeout) * self.rlimit_per_ms)
-            t_end = time.time() + 3.0 * self.prove_timeout / 1000.0  # the whole pinning pass is budgeted
+            t_end = time.time() + 3.0 * slack() * self.prove_timeout / 1000.0  # the whole pinning pass is budgeted
             cur = m
             pinned = 0
 
@@ -1589,6 +1589,28 @@ def _short(e):
         return "<term>"
 
 
+# Solver budgets are wall-clock (z3's resource limit does not bind inside its nonlinear engine), so a loaded
+# machine would turn decided obligations into `unknown`.  Budgets are therefore stretched by the load factor:
+# 1 on an idle machine, up to 4 when more processes are runnable than there are cores.
+_NCPU = os.cpu_count() or 1
+_SLACK_ENV = os.environ.get("QVERIF_TIMEOUT_SLACK")
+
+
+def slack():
+    if _SLACK_ENV:
+        return float(_SLACK_ENV)
+    try:
+        with open("/proc/loadavg") as fh:
+            f = fh.read().split()
+        load = max(float(f[0]), float(f[3].split("/")[0]) - 1.0)  # 1-minute average / runnable right now
+    except (OSError, ValueError, IndexError):
+        try:
+            load = os.getloadavg()[0]
+        except OSError:
+            return 1.0
+    return max(1.0, min(4.0, load / _NCPU))
+
+
 _HARNESS = {}
 _WITNESS_SPENT = [0.0]  # seconds this (scenario) process has spent on witness generation
 _TRACE_PREFIX = (os.environ.get("QVERIF_SRC") or "/repo/src").rstrip("/") + "/"
@@ -1688,7 +1710,7 @@ def explore(fn, opts=None, workers=None, max_paths=200000, deadline_s=None, prog
             res.merge_path(p)
             if progress is not None:
                 progress(res)
-            if res.paths > max_paths or (deadline_s and time.time() - t0 > deadline_s):
+            if res.paths > max_paths or (deadline_s and time.time() - t0 > deadline_s * slack()):
                 res.bound_hits.append(f"path/time budget hit after {res.paths} paths")
                 break
         res.functions.update(_seen_code)
@@ -1715,7 +1737,7 @@ def explore(fn, opts=None, workers=None, max_paths=200000, deadline_s=None, prog
                 else:
                     nxt.append(h)
             pending = nxt
-            if res.paths > max_paths or (deadline_s and time.time() - t0 > deadline_s):
+            if res.paths > max_paths or (deadline_s and time.time() - t0 > deadline_s * slack()):
                 if not stop:
                     res.bound_hits.append(f"path/time budget hit after {res.paths} paths")
                 stop = True
